@@ -2,8 +2,8 @@ package props
 
 import (
 	"fmt"
-	"go/types"
 	"go/token"
+	"go/types"
 	"sort"
 	"strings"
 
@@ -491,7 +491,6 @@ func isWaitGroup(t types.Type) bool {
 	n := ir.NamedOf(t)
 	return n != nil && n.Obj().Pkg() != nil && n.Obj().Pkg().Path() == "sync" && n.Obj().Name() == "WaitGroup"
 }
-
 
 // onlyFreshReceivers: fn is a method and at every call site its receiver is an object
 // the caller has just constructed (composite literal, new, or a constructor that returns one).
